@@ -126,7 +126,9 @@ type World struct {
 
 	// shadow counts for C03
 	ArmedTimers int
+	ArmedShort  int
 	PostsQueued int
+	Timers      []*Tmr
 
 	// stats
 	Batches, BatchesGE2, BatchesStale int
@@ -163,6 +165,7 @@ func (w *World) Teardown() {
 			w.rawClose(o)
 		}
 	}
+	w.CloseTimers()
 	_ = w.IOC.Close()
 	_ = os.RemoveAll(w.Dir)
 }
@@ -816,4 +819,101 @@ func (w *World) Poll() (n int, err error, ready int) {
 // ShadowPending is what IO.Pending() must equal at a quiescent point.
 func (w *World) ShadowPending() int {
 	return len(w.InFlight()) + w.ArmedTimers + w.PostsQueued
+}
+
+// ---------------------------------------------------------------- timers and posts (C03)
+
+type Tmr struct {
+	T      *sonic.Timer
+	Armed  bool
+	Closed bool
+	Short  bool
+	Fired  int
+}
+
+func (w *World) NewTimer() (*Tmr, error) {
+	t, err := sonic.NewTimer(w.IOC)
+	if err != nil {
+		return nil, err
+	}
+	tm := &Tmr{T: t}
+	w.Timers = append(w.Timers, tm)
+	return tm, nil
+}
+
+// Arm schedules the timer once; the shadow count follows the statement: an armed timer is an operation
+// in flight until it fires, is cancelled or is closed.
+func (w *World) Arm(tm *Tmr, d time.Duration) error {
+	if tm.Closed || tm.Armed {
+		return nil
+	}
+	err := tm.T.ScheduleOnce(d, func() {
+		tm.Armed = false
+		tm.Fired++
+		w.ArmedTimers--
+		if tm.Short {
+			w.ArmedShort--
+		}
+		w.HandlersInPoll++
+		w.C.Logf("    <- timer fired")
+	})
+	if err == nil {
+		tm.Armed = true
+		tm.Short = d < time.Second
+		w.ArmedTimers++
+		if tm.Short {
+			w.ArmedShort++
+		}
+	}
+	return err
+}
+
+func (w *World) CancelTimer(tm *Tmr) {
+	if tm.Closed {
+		return
+	}
+	if err := tm.T.Cancel(); err == nil && tm.Armed {
+		tm.Armed = false
+		w.ArmedTimers--
+		if tm.Short {
+			w.ArmedShort--
+		}
+	}
+}
+
+func (w *World) CloseTimer(tm *Tmr) {
+	if tm.Closed {
+		return
+	}
+	if err := tm.T.Close(); err == nil {
+		tm.Closed = true
+		if tm.Armed {
+			tm.Armed = false
+			w.ArmedTimers--
+			if tm.Short {
+				w.ArmedShort--
+			}
+		}
+	}
+}
+
+func (w *World) Post(fn func()) {
+	w.PostsQueued++
+	_ = w.IOC.Post(func() {
+		w.PostsQueued--
+		w.HandlersInPoll++
+		w.C.Logf("    <- posted handler runs")
+		if fn != nil {
+			fn()
+		}
+	})
+}
+
+func (w *World) CloseTimers() {
+	for _, tm := range w.Timers {
+		if !tm.Closed {
+			_ = tm.T.Close()
+			tm.Closed = true
+		}
+	}
 }
